@@ -1290,12 +1290,13 @@ class NodeBase(ABC):
                 this.parent,
                 this._fetch_following_sibling(),
                 this.fetch_preceding_sibling(),
+                getattr(this, "__document__", None),
             )
         ):
             raise InvalidOperation(
                 "A node that shall be added to a tree must have neither a parent nor "
-                "any sibling node. Use :meth:`NodeBase.detach` or a `clone` argument "
-                "to move a node within or between trees."
+                "any sibling node nor be a document's root. Use :meth:`NodeBase.detach` "
+                "or a `clone` argument to move a node within or between trees."
             )
 
         return this, queue
